@@ -222,11 +222,15 @@ def default_value(ex, d):
     return ex.env.trusted.default_object(ex, d)
 
 
+USED_CONTRACTS = set()        # keys of the contracts applied at call sites while the current function was executed
+
+
 class CallCtx(object):
     @staticmethod
     def apply(ex, st, con, fn, args, kwargs, text):
         """Use contract `con` at a call site: assert requires, havoc the frame, assume ensures."""
         from .symexec import Obligation, Meta
+        USED_CONTRACTS.add(con.key)
         bound = bind_arguments(fn, args, kwargs, ex)
         st = st.copy()
         from .symexec import BoundMeth
